@@ -289,5 +289,7 @@ func c13one(ctx *vc.Ctx, scn *vc.Scenario, h []c10op, rejoin bool) string {
 		out = "MISMATCH"
 	}
 	scn.Case(out, len(setOn) > 0)
+	scn.Transitions += len(h)
+	scn.AddState(fmt.Sprintf("%v|%v|%d|%d", rejoin, setOn, ao, restartsAfter))
 	return out
 }
